@@ -72,7 +72,7 @@ UNRELATED = ["main", "feature/x", "fix-123", "8.x", "v7.1", "release"]
 LOOSE = ["123-fix", "7-backport", "7.1-wip"]
 F1 = "prior-minor/zero"
 F2 = "exception/suffix-without-patch"
-F15 = "git-remote/master-after-remote-miss"
+F_REMOTE_MISS = "git-remote/master-after-remote-miss"
 
 # ------------------------------------------------------------------------------------------------ reference (from docs/track.rst)
 _VERSION = re.compile(r"^(0|[1-9][0-9]*)\.(0|[1-9][0-9]*)\.(0|[1-9][0-9]*)(?:-(.+))?$")
@@ -191,7 +191,7 @@ def is_excluded(case, known):
         return True
     if core.signature_matches(F2, known) and any(_in_f2(b, v) for b in sets):
         return True
-    if core.signature_matches(F15, known) and _in_f15(case):
+    if core.signature_matches(F_REMOTE_MISS, known) and _in_f15(case):
         return True
     return False
 
@@ -397,7 +397,7 @@ def _run_git(case, obs):
         ok = True
     if None in ref["acceptable"]:
         if tag_candidates:
-            if error is None and kind == "tags" and name == tag_candidates[0]:
+            if error is None and kind == "tags" and name in tag_candidates:  # any matching v-tag (the statement does not rank them)
                 ok = True
             if mode == "git-remote" and error is not None:
                 ok = True  # the statement promises the tag only for local repositories
@@ -405,13 +405,13 @@ def _run_git(case, obs):
             ok = True
     if not ok:
         if mode == "git-remote" and error is None and head_subject == "heads/master" and _in_f15(case):
-            sig = F15
+            sig = F_REMOTE_MISS
         elif ref["rule"] == "prior-minor" and _parse_branch(ref["winner"])[1] == 0:
             sig = F1
         else:
             sig = f"git/{ref['rule']}"
         want = sorted(map(str, ref["acceptable"]))
-        obs.violation(sig, f"{where}: {observed}; documented precedence ({ref['rule']}) allows {want}" + (f", else tag {tag_candidates[0]}" if tag_candidates else ", else an error"))
+        obs.violation(sig, f"{where}: {observed}; documented precedence ({ref['rule']}) allows {want}" + (f", else one of the tags {tag_candidates}" if tag_candidates else ", else an error"))
 
 
 def run_case(case, obs):
@@ -584,5 +584,5 @@ def evidence_extra():
 PROBES = {
     F1: {"mode": "pure", "branches": ["7.0", "6", "master"], "version": "7.3.0"},
     F2: {"mode": "pure", "branches": ["123-fix", "7", "master"], "version": "7.3.0"},
-    F15: {"mode": "git-remote", "branches": ["master", "7"], "version": "6.0.0", "tags": [], "prior_local": [], "local_only": []},
+    F_REMOTE_MISS: {"mode": "git-remote", "branches": ["master", "7"], "version": "6.0.0", "tags": [], "prior_local": [], "local_only": []},
 }
